@@ -1,7 +1,7 @@
 """C07 Channels deliver every value exactly once, in order, within capacity."""
 from hypothesis import strategies as st
 
-from .. import kpn, kpn_many
+from .. import kpn, kpn_bulk, kpn_many
 from .. import worker as W
 from ..lang import printer
 from ..oracle import crash_failure
@@ -34,11 +34,16 @@ RULE = ("Hypothesis draws a process network as a history of operations: 1-5 laun
         "'sent' / 'refused' with a shared logical clock and stop at the first refusal; then exactly the values whose "
         "send returned normally must arrive, a refused value must not, a send that began after the close must be "
         "refused, and on a synchronous channel every 'sent' comes after the matching 'got'. Non-trivial there: >= 3 "
-        "fibers and >= 3 values.")
+        "fibers and >= 3 values. Mode B (one case in nine): ONE buffered channel with a drawn capacity (1-8, a "
+        "power-of-two neighbour up to 4096, or anything up to 5000) carrying up to 5000 values written with loops: one "
+        "fiber fills it within capacity, closes and drains it; or main produces for a launched consumer; or a launched "
+        "producer feeds main. Expected output is exact: capacity() is the capacity asked for, the consumer's first value "
+        "arrives when main has sent min(n, capacity) values, len() never exceeds the capacity, all n values arrive in "
+        "order and then nil.")
 ASSUMPTIONS = ["single-writer single-reader networks are determinate, so the model does not need the schedule",
                "the fiber scheduler is deterministic and not steered: scheduler states are reached by varying the "
                "program (launch order, capacities, operation order)"]
-GATES = {"nontrivial": 0.20, "has-sync": 0.40, "has-close": 0.10}
+GATES = {"nontrivial": 0.20, "has-sync": 0.28, "has-close": 0.10, "mode:B": 0.03}
 LEVEL_TEXT = ("Model-based search over generated operation histories with a determinacy argument replacing schedule "
               "control; finds lost/duplicated/reordered/invented values and capacity or rendezvous violations in the "
               "networks generated.")
@@ -51,8 +56,10 @@ def cases(tier):
 
 
 def strategy(hazards):
-    return st.tuples(st.one_of(kpn.network(False, hazards), kpn.network(False, hazards), kpn.network(True, hazards),
-                               kpn_many.many_network(hazards)), st.integers(0, 7))
+    # (one_of does not choose uniformly in the generate phase: the last branch came out in a quarter of the cases; the
+    # bulk mode gets one middle value of an explicit selector)
+    pool = [kpn.network(False, hazards), kpn.network(False, hazards), kpn.network(True, hazards), kpn_many.many_network(hazards)]
+    return st.tuples(st.integers(0, 8).flatmap(lambda k: kpn_bulk.bulk_network() if k == 5 else pool[k % 4]), st.integers(0, 7))
 
 
 def labels_of(net, m):
@@ -90,10 +97,35 @@ def run_many(prop, case, ctx, judge):
                    sample={k: net[k] for k in ("ns", "nr", "cap", "counts", "order", "closer")}, runs=runs)
 
 
+def run_bulk(prop, case, ctx, progress_only):
+    """Mode B network (one channel, large capacity / traffic): exact expected output, both builds."""
+    net, sel = case
+    src = kpn_bulk.build_source(net)
+    fail = None
+    runs = 0
+    for variant in ("dbg", "rel"):
+        r = ctx.worker(variant).run(src, schedule=W.EVERY_ALLOC if (sel == 0 and variant == "dbg" and net["n"] <= 300) else W.NATURAL,
+                                    budget=kpn_bulk.budget(net))
+        runs += 1
+        if r.get("outcome") != "budget":
+            fail = crash_failure(prop, r, src, variant)
+        if fail is None:
+            fail = kpn_bulk.failure(prop, net, r, src, progress_only)
+        if fail is not None:
+            break
+    nontrivial = net["n"] >= 3
+    labels = ["mode:B", "model:complete", "has-close", "shape:%d" % net["shape"]] + (["over-capacity"] if net["n"] > net["cap"] else []) + \
+        (["above-1024"] if min(net["n"], net["cap"]) > 1024 else []) + (["nontrivial"] if nontrivial else [])
+    return Outcome(key=src, nontrivial=nontrivial, labels=labels, failure=fail,
+                   sample={k: net[k] for k in ("cap", "n", "shape", "boxed")}, runs=runs)
+
+
 def run_case(case, ctx):
     net, sel = case
     if net.get("mode") == "M":
         return run_many(PROPERTY, case, ctx, kpn_many.safety_failure)
+    if net.get("mode") == "B":
+        return run_bulk(PROPERTY, case, ctx, False)
     fail = None
     runs = 0
     ev = None
